@@ -46,6 +46,7 @@ func c13Case(c *lib.Ctx, idx uint64) {
 		Serial:         true,
 		MaxFields:      6,
 		UndefinedLocal: 15,
+		RepeatPrev:     8,
 		NoTimeZero:     true,
 		ZeroFieldDefs:  3,
 		RedefSimilar:   30,
